@@ -780,6 +780,102 @@ def check_chain_nested(ctx, text, kw, fail, position, variant, pos):
              {"nested": variant, "position": position, "pos": pos})
 
 
+# -- replacements by a node of ANOTHER class -----------------------------------------------------------
+
+FAMILIES = {
+    "selection": ("Field", "FragmentSpread", "InlineFragment"),
+    "value": ("IntValue", "FloatValue", "StringValue", "BooleanValue", "NullValue", "EnumValue", "ListValue", "ObjectValue", "Variable"),
+    "type": ("NamedType", "ListType", "NonNullType"),
+    "definition": ("OperationDefinition", "FragmentDefinition", "SchemaDefinition", "SchemaExtension", "ScalarTypeDefinition",
+                   "ScalarTypeExtension", "ObjectTypeDefinition", "ObjectTypeExtension", "InterfaceTypeDefinition",
+                   "InterfaceTypeExtension", "UnionTypeDefinition", "UnionTypeExtension", "EnumTypeDefinition", "EnumTypeExtension",
+                   "InputObjectTypeDefinition", "InputObjectTypeExtension", "DirectiveDefinition"),
+}
+_STOCK = {}
+
+
+def stock():
+    """one populated node of every class of the four families"""
+    if not _STOCK:
+        texts = [("query Q($a: T, $b: [T], $c: T!) { f(i: 1, fl: 1.5, s: \"x\", b: true, n: null, e: E, l: [1, 2], o: {k: 1}, v: $a) "
+                  "...S @d ... on T @d { g } }\nfragment F on T @d { h }", {}),
+                 ("schema @d { query: Q }\nextend schema @d { mutation: M }\nscalar S @d\nextend scalar S @d\ntype T implements I @d { f: Int }\n"
+                  "extend type T implements J @d { g: Int }\ninterface I @d { f: Int }\nextend interface I @d { g: Int }\nunion U @d = A | B\n"
+                  "extend union U @d = C\nenum E @d { A }\nextend enum E @d { B }\ninput N @d { x: Int }\nextend input N @d { y: Int }\n"
+                  "directive @z(a: Int) on FIELD", {"allow_type_system": True})]
+        for text, kw in texts:
+            stack = [parse_doc(text, kw)]
+            while stack:
+                n = stack.pop()
+                _STOCK.setdefault(kind(n), n)
+                for _, _, c in children(n):
+                    stack.append(c)
+    return _STOCK
+
+
+def family_of(k):
+    for f, ks in FAMILIES.items():
+        if k in ks:
+            return f
+    return None
+
+
+def check_cross_kind(ctx, text, kw, fail, positions, rng, all_kinds=False):
+    """`enter` returns a node of ANOTHER class admitted at that position (another selection / value / type / definition
+    kind): the statement requires that the replacement is substituted at exactly that position, that `leave` is
+    called with it, that nothing else changes and that nothing raises. Whether the replacement's own children are
+    traversed is not stated and not checked here."""
+    _v = V()
+    doc0 = parse_doc(text, kw)
+    idx0 = Index(doc0)
+    base = []
+    make_recorder(_v.ASTVisitor, 0, base).visit(doc0)
+    ent0 = [e[-1] for e in base if e[-2] == "enter"]
+    order0 = {id(n): q for q, n in enumerate(idx0.nodes)}
+    base_keys = [key(e) for e in base]
+    for pos in positions:
+        if pos >= len(ent0) or idx0.parent.get(id(ent0[pos])) is None:
+            continue
+        fam = family_of(kind(ent0[pos]))
+        if fam is None:
+            continue
+        i, j = segment(base, ent0[pos])
+        others = [k for k in FAMILIES[fam] if k != kind(ent0[pos])]
+        if fam == "value" and idx0.parent[id(ent0[pos])][1] == "default_value":
+            others = [k for k in others if k != "Variable"]
+        for to in (others if all_kinds else rng.sample(others, min(2, len(others)))):
+            doc = parse_doc(text, kw)
+            idx = Index(doc)
+            x = idx.nodes[order0[id(ent0[pos])]]
+            par = idx.parent[id(x)]
+            r = copy.deepcopy(stock()[to])
+            members = list(getattr(par[0], par[1])) if par[2] is not None else None
+            trace = []
+            ctx.count()
+            sigk = "%s->%s" % (kind(x), to)
+            try:
+                res = make_recorder(_v.ASTVisitor, 0, trace, {id(x): ("replace", r)}).visit(doc)
+            except Exception as e:  # noqa
+                fail("replace-raises:%s:%s" % (sigk, type(e).__name__),
+                     "returning a %s for a %s raises %s (the body of the %s method goes on with the replacement)" % (to, kind(x), type(e).__name__, kind(x)),
+                     {"cross": to, "pos": pos})
+                continue
+            holder = getattr(par[0], par[1])
+            if par[2] is not None:
+                placed = [id(m) for m in holder] == [id(r) if q == par[2] else id(m) for q, m in enumerate(members)]
+            else:
+                placed = holder is r
+            tr_nodes = [e for e in trace if e[-1] is not None]
+            keys = [key(e) for e in tr_nodes]
+            left_r = sum(1 for e in tr_nodes if e[-2] == "leave" and e[-1] is r) == 1
+            outside = keys[:i + 1] == base_keys[:i + 1] and (keys[len(keys) - (len(base_keys) - j):] == base_keys[j:])
+            if not (res is doc and placed and left_r and outside and len(tr_nodes) == len(trace)):
+                cause = "not-substituted" if not placed else ("leave" if not left_r else "other-calls-differ")
+                fail("replace-cross-kind:%s:%s" % (cause, sigk),
+                     "returning a %s for a %s does not substitute exactly that node (%s)" % (to, kind(x), cause),
+                     {"cross": to, "pos": pos})
+
+
 def check_transforms(ctx, text, kw, fail):
     """the real helpers of py_gql.utilities.ast_transforms"""
     import py_gql.utilities.ast_transforms as T
